@@ -342,6 +342,19 @@ func (w *World) Leaves(t types.Type) []Leaf {
 	return out
 }
 
+// heapNameT: one heap per scalar sort; reference-like scalars (pointers, slices, interfaces,
+// functions, maps) are further split by their Go type - a memory location has one static type
+// in type-safe Go, so a store through one type cannot change a location of another type.
+func heapNameT(s Sort, t types.Type) string {
+	switch s {
+	case SLoc, SSlice, SIface, SFunc, SInt:
+		if t != nil {
+			return heapName(s) + "__" + mangle(typeKey(t))
+		}
+	}
+	return heapName(s)
+}
+
 func heapName(s Sort) string {
 	switch {
 	case s.IsBV():
